@@ -32,6 +32,12 @@ PROFILES = ["expr", "control", "closures", "classes", "exceptions", "fibers", "i
 
 # load_fiber / unload_fiber translated from vm.rs on every run: rejections leave the state untouched, hand-over values, the caller link, both
 # designators of the running fiber, and every third fiber untouched, proved of the translated bodies (Props/FnsTie/FiberSwitch)
+# the value stack translated from stack.rs on every run (Props/FnsTie/StackTie): ONE translated body per method, the `cfg!` test a Boolean
+# input; with the test true it is the checked model, with the test false the unchecked one - `guard_free_equiv` is about the code as read
+THEOREM_MODULES.append("Yarel.Props.FnsTie.StackTie")
+REQUIRED_THEOREMS += ['stack_peek_form', 'stack_push_form', 'stack_pop_form', 'stack_truncate_form', 'stack_peek_checked', 'stack_peek_unchecked',
+                      'stack_push_checked', 'stack_push_unchecked', 'stack_pop_checked', 'stack_pop_unchecked', 'stack_truncate_checked',
+                      'stack_truncate_unchecked', 'stack_clear_tie', 'stack_peek_mut_is_peek']
 THEOREM_MODULES.append("Yarel.Props.FnsTie.FiberSwitch")
 REQUIRED_THEOREMS += ['load_effect', 'load_designators_agree', 'unload_effect', 'unload_designators_agree']
 
